@@ -16,7 +16,7 @@ use serde_json::json;
 use std::collections::HashMap;
 use std::io::{BufRead, Write};
 
-pub const RULE: &str = "emit phase: 16 worker PROCESSES x 4 threads; every thread performs (1) HOMOGENEOUS sequences - n consecutive calls of ONE entry point with identical arguments (n = 80 per thread and group in the quick tier, 320 in the thorough tier, four times that for the cheap entry points SecretKey::new, ProofCommitmentChallenge::new and sign_crypt - i.e. 2560 / 10240 sign_crypt calls per PROCESS and N = 20480 / 81920 over all processes; a generator that recycles state with a period <= n is visible whatever happens in between) for SecretKey::new, ProofCommitmentChallenge::new, sign_crypt, encrypt_time_lock, encrypt_key_el_gamal, ProofCommitment::generate, split - and (2) an INTERLEAVED sequence in which every randomized entry point is called once per round and ALL observables are logged, for both groups: SecretKey::new, SecretKey::split (3-of-5: the polynomial coefficients a1,a2 are recovered from the shares), ProofCommitmentChallenge::new, PublicKey::sign_crypt (u, v), encrypt_time_lock (u, v), encrypt_key_el_gamal (c1), encrypt_key_el_gamal_with_proof (c1 and r1 = P*blinder_proof - c1*challenge), ProofCommitment::generate (u and secret x), ProofOfKnowledgeTimestamp::generate (u), and the trait-level BlsElGamal::seal_scalar_with_proof with a caller-supplied blinder (its proof nonce r1 must still be fresh). Each observable is logged as {pid, tid, seq, entry, pool, value}. check phase (offline, over ALL logs): within each pool - scalars per suite, key-group points per suite, signature-group points per suite, masks - every value must be globally distinct across calls, threads and processes; pools are shared across entry points so a value reused between two entry points (e.g. the same r in signcryption and time-lock) shows as equal u. A collision is reported with both witnesses. distinct_nontrivial = number of distinct observable values seen; evaluations = number of observables checked. A generator that is weak but never repeats is observationally indistinguishable and not claimed.";
+pub const RULE: &str = "emit phase: 16 worker PROCESSES x 4 threads; every thread performs (1) HOMOGENEOUS sequences - n consecutive calls of ONE entry point with identical arguments (n = 80 per thread and group in the quick tier, 320 in the thorough tier, four times that for the cheap entry points SecretKey::new, ProofCommitmentChallenge::new and sign_crypt - i.e. 2560 / 10240 sign_crypt calls per PROCESS and N = 20480 / 81920 over all processes; a generator that recycles state with a period <= n is visible whatever happens in between) for SecretKey::new, ProofCommitmentChallenge::new, sign_crypt, encrypt_time_lock, encrypt_key_el_gamal, ProofCommitment::generate, split - (3) ARGUMENT CLASSES: k = max(6, n/12) consecutive calls with identical arguments per class for encrypt_time_lock (3 schemes x identifier lengths {0,1,31,32,33,64,200} and x message lengths of the same set), sign_crypt (3 schemes x the same message lengths), ProofCommitment::generate and ProofOfKnowledgeTimestamp::generate (3 schemes), ElGamal with plaintext keys 1, r-1, 2, split with (2,2),(2,3),(3,5),(10,20): freshness must not depend on what is encrypted - and (2) an INTERLEAVED sequence in which every randomized entry point is called once per round and ALL observables are logged, for both groups: SecretKey::new, SecretKey::split (3-of-5: the polynomial coefficients a1,a2 are recovered from the shares), ProofCommitmentChallenge::new, PublicKey::sign_crypt (u, v), encrypt_time_lock (u, v), encrypt_key_el_gamal (c1), encrypt_key_el_gamal_with_proof (c1 and r1 = P*blinder_proof - c1*challenge), ProofCommitment::generate (u and secret x), ProofOfKnowledgeTimestamp::generate (u), and the trait-level BlsElGamal::seal_scalar_with_proof with a caller-supplied blinder (its proof nonce r1 must still be fresh). Each observable is logged as {pid, tid, seq, entry, pool, value}. check phase (offline, over ALL logs): within each pool - scalars per suite, key-group points per suite, signature-group points per suite, masks - every value must be globally distinct across calls, threads and processes; pools are shared across entry points so a value reused between two entry points (e.g. the same r in signcryption and time-lock) shows as equal u. A collision is reported with both witnesses. distinct_nontrivial = number of distinct observable values seen; evaluations = number of observables checked. A generator that is weak but never repeats is observationally indistinguishable and not claimed.";
 
 #[derive(Serialize, Deserialize, Clone)]
 struct Ev {
@@ -88,6 +88,76 @@ fn one_thread<C: Suite>(pid: u32, tid: u32, n: u32, out: &mut Vec<Ev>) {
             let mut v = shares[0].0.value_vec();
             v.reverse();
             push(seq, "SecretKey::split", "scalar", v);
+        }
+    }
+    // (3) ARGUMENT CLASSES: the same entry points with other arguments - every scheme, message
+    //     and identifier lengths around 32 and 64 bytes (hash block / seed sizes), edge plaintext
+    //     keys, several (t, n) - k consecutive calls with identical arguments per class. Freshness
+    //     must not depend on what is being encrypted.
+    let k = (n / 12).max(6);
+    let schemes = [SignatureSchemes::Basic, SignatureSchemes::MessageAugmentation, SignatureSchemes::ProofOfPossession];
+    let lens = [0usize, 1, 31, 32, 33, 64, 200];
+    let mut seq = 80000u32;
+    for (si, sch) in schemes.iter().enumerate() {
+        for &l in &lens {
+            let idl: Vec<u8> = (0..l).map(|i| (i as u8).wrapping_mul(7).wrapping_add(si as u8)).collect();
+            for _ in 0..k {
+                seq += 1;
+                // long identifier, fixed message
+                if let Ok(t) = pk.encrypt_time_lock(*sch, &msg, &idl) {
+                    push(seq, &format!("PublicKey::encrypt_time_lock({sch:?},id_len={l})/u"), "pk-point", enc_pt(&t.u));
+                    push(seq, &format!("PublicKey::encrypt_time_lock({sch:?},id_len={l})/v"), "mask32", t.v.to_vec());
+                }
+                // long message, fixed identifier
+                if let Ok(t) = pk.encrypt_time_lock(*sch, &idl, &id) {
+                    push(seq, &format!("PublicKey::encrypt_time_lock({sch:?},msg_len={l})/u"), "pk-point", enc_pt(&t.u));
+                }
+                let ct = pk.sign_crypt(*sch, &idl);
+                push(seq, &format!("PublicKey::sign_crypt({sch:?},msg_len={l})/u"), "pk-point", enc_pt(&ct.u));
+                if l >= 16 {
+                    push(seq, &format!("PublicKey::sign_crypt({sch:?},msg_len={l})/v"), "mask", ct.v.clone());
+                }
+            }
+        }
+        if let Ok(sg) = sk.sign(*sch, &msg) {
+            for _ in 0..k {
+                seq += 1;
+                if let Ok((com, x)) = ProofCommitment::<C>::generate(&msg, sg) {
+                    let u = match com {
+                        ProofCommitment::Basic(u) | ProofCommitment::MessageAugmentation(u) | ProofCommitment::ProofOfPossession(u) => u,
+                    };
+                    push(seq, &format!("ProofCommitment::generate({sch:?})/u"), "sig-point", enc_pt(&u));
+                    push(seq, &format!("ProofCommitment::generate({sch:?})/x"), "scalar", x.to_be_bytes().to_vec());
+                }
+                if let Ok(tp) = ProofOfKnowledgeTimestamp::<C>::generate(&msg, sg) {
+                    let u = match tp.proof {
+                        ProofOfKnowledge::Basic { u, .. } | ProofOfKnowledge::MessageAugmentation { u, .. } | ProofOfKnowledge::ProofOfPossession { u, .. } => u,
+                    };
+                    push(seq, &format!("ProofOfKnowledgeTimestamp::generate({sch:?})/u"), "sig-point", enc_pt(&u));
+                }
+            }
+        }
+    }
+    for (pn, pt) in [("1", RS::ONE), ("r-1", -RS::ONE), ("2", RS::ONE + RS::ONE)] {
+        let mk = sk_from_rs::<C>(&pt);
+        for _ in 0..k {
+            seq += 1;
+            if let Ok(e) = pk.encrypt_key_el_gamal(&mk) {
+                push(seq, &format!("PublicKey::encrypt_key_el_gamal(plaintext={pn})/c1"), "pk-point", enc_pt(&e.c1));
+            }
+            if let Ok(p) = pk.encrypt_key_el_gamal_with_proof(&mk) {
+                push(seq, &format!("PublicKey::encrypt_key_el_gamal_with_proof(plaintext={pn})/c1"), "pk-point", enc_pt(&p.ciphertext.c1));
+            }
+        }
+    }
+    for (t, nn) in [(2usize, 2usize), (2, 3), (3, 5), (10, 20)] {
+        for _ in 0..k {
+            seq += 1;
+            if let Ok(shares) = sk.split(t, nn) {
+                let mut v = shares[0].0.value_vec();
+                v.reverse();
+                push(seq, &format!("SecretKey::split({t},{nn})"), "scalar", v);
+            }
         }
     }
     // (2) INTERLEAVED sequence: every entry point once per round, all observables
